@@ -687,7 +687,10 @@ func (ix *idxProver) indexOK(X, idx ssa.Value, at *ssa.BasicBlock) (bool, string
 	}
 	// sort comparator
 	if prm, ok := idx.(*ssa.Parameter); ok && ix.isSortComparator(prm.Parent()) {
-		return true, "comparator index supplied by sort.Slice"
+		if prm.Parent().Parent() == nil || ix.indexesSortedSlice(X, prm.Parent()) {
+			return true, "comparator index supplied by sort.Slice for the slice being sorted"
+		}
+		return false, "a sort.Slice comparator indexes a slice other than the one being sorted"
 	}
 	return false, "index " + idx.String() + " not related to len(" + X.String() + ")"
 }
@@ -1426,4 +1429,81 @@ func appendedTo(v ssa.Value) (base ssa.Value, k int, ok bool) {
 // arrivesOn: the value being judged arrives at its phi over exactly this edge.
 func (ix *idxProver) arrivesOn(b *ssa.BasicBlock, k int) bool {
 	return ix.via != nil && ix.via.From == b && ix.via.Succ == k
+}
+
+// indexesSortedSlice: X, indexed inside the comparator closure fn, is the slice handed to sort.Slice together
+// with that closure (the captured variable, or the captured value).
+func (ix *idxProver) indexesSortedSlice(X ssa.Value, fn *ssa.Function) bool {
+	strip := func(v ssa.Value) ssa.Value {
+		for {
+			switch x := v.(type) {
+			case *ssa.MakeInterface:
+				v = x.X
+				continue
+			case *ssa.ChangeType:
+				v = x.X
+				continue
+			}
+			return v
+		}
+	}
+	// an access path: the value is *(&(&root.f1).f2 …) or root itself
+	path := func(v ssa.Value) (root ssa.Value, fields []int, deref bool) {
+		v = strip(v)
+		ld, ok := v.(*ssa.UnOp)
+		if !ok || ld.Op != token.MUL {
+			return v, nil, false
+		}
+		a := ld.X
+		for {
+			fa, ok := a.(*ssa.FieldAddr)
+			if !ok {
+				break
+			}
+			fields = append(fields, fa.Field)
+			a = fa.X
+		}
+		return a, fields, true
+	}
+	xr, xf, xd := path(X)
+	fv, ok := xr.(*ssa.FreeVar)
+	if !ok {
+		return false
+	}
+	idx := -1
+	for i, f := range fn.FreeVars {
+		if f == fv {
+			idx = i
+		}
+	}
+	if idx < 0 {
+		return false
+	}
+	n := 0
+	for _, mc := range closureSites(fn) {
+		if idx >= len(mc.Bindings) || mc.Referrers() == nil {
+			return false
+		}
+		bind := mc.Bindings[idx]
+		for _, r := range *mc.Referrers() {
+			cl, ok := r.(*ssa.Call)
+			if !ok || !(isFunc(calleeObj(cl), "sort", "Slice") || isFunc(calleeObj(cl), "sort", "SliceStable")) {
+				continue
+			}
+			n++
+			sr, sf, sd := path(cl.Call.Args[0])
+			if xd != sd || len(xf) != len(sf) {
+				return false
+			}
+			for k := range xf {
+				if xf[k] != sf[k] {
+					return false
+				}
+			}
+			if sr != bind && canon(sr) != canon(bind) {
+				return false
+			}
+		}
+	}
+	return n > 0
 }
